@@ -69,7 +69,43 @@ def verdict (evs : List Ev) (impl : String) : String :=
     else if !flags.contains "closed" then "FAIL channel not closed after EOF"
     else if !flags.contains "wc" then "FAIL WaitClose did not return"
     else if !flags.contains "immut-ok" then s!"FAIL a delivered sequence was modified before Finish ({flagsS})"
-    else if evs.contains .close then "ok"
+    else if evs.contains .close then
+      -- Close(): what was read before it is parsed, and the items are those of a prefix of the input
+      let pre := (evs.takeWhile (· ≠ .close)).flatMap fun | .data l => l | _ => []
+      -- (the pending ReadRune, and print's look-ahead over what is buffered, keep calling Read while
+      -- they hold an incomplete rune: how far exactly the last rune/cluster reaches is the model's
+      -- business — `close_then_read_stops` and the correspondence; here: a prefix, and not too short)
+      let next := (evs.dropWhile (· ≠ .close)).flatMap fun | .data l => l | _ => []
+      let body := C02.mergePrints ((toks.dropLast).filter (· ≠ "X"))
+      let devs : List Spec.VT500.Dev :=
+        [{}, { lazyST := true }, { c0ClearsST := true }, { lazyST := true, c0ClearsST := true }]
+      -- (the read is only issued when at most an incomplete rune — up to 3 bytes — is still buffered;
+      -- whatever is buffered but not yet parsed when the loop stops is dropped)
+      let all := pre ++ next
+      let okFor (k : Nat) : Bool :=
+        let rsM := Spec.VT500.decodeMarked (all.take (pre.length - 3 + k))
+        devs.any fun d =>
+          let (oM, fM) := Spec.VT500.runD d rsM
+          (oM ++ fM).any C02.tooBig ||
+          C02.relToks body (C02.mergePrints (oM.map C02.specTokM)) ||
+          C02.relToks body (C02.mergePrints ((oM ++ fM).map C02.specTokM))
+      -- all-ASCII script: no incomplete runes, no clusters — exactly one more rune is parsed after Close()
+      let first := match (evs.dropWhile (· ≠ .close)).find? (fun | .data _ => true | _ => false) with
+        | some (.data l) => l
+        | _ => []
+      if all.all (· < 0x80) then
+        let want := pre.length + min 1 first.length
+        if okFor (want + 3 - pre.length) && pre.length ≥ 3 || (pre.length < 3 && (
+            let rsM := Spec.VT500.decodeMarked (all.take want)
+            devs.any fun d =>
+              let (oM, fM) := Spec.VT500.runD d rsM
+              (oM ++ fM).any C02.tooBig ||
+              C02.relToks body (C02.mergePrints (oM.map C02.specTokM)) ||
+              C02.relToks body (C02.mergePrints ((oM ++ fM).map C02.specTokM)))) then "ok"
+        else s!"FAIL[close] after Close() and the return of the pending read exactly {want} bytes should have been parsed"
+      else
+      if (List.range (next.length + 4)).any okFor then "ok"
+      else "FAIL[close] after Close() the items are not those of a prefix of the input that covers what was read before the Close"
     else
       let body := C02.mergePrints ((toks.dropLast).filter (· ≠ "X"))
       let devs : List Spec.VT500.Dev :=
